@@ -178,47 +178,47 @@ def t4(e: Engine, rep: Report):
     handlers = [n for n in g.of_kind('handler')
                 if any(t in common.TIMEOUT_QNAMES
                        for t in n.extra.get('types', []))]
-    for h in handlers:
-        # all paths from the handler entry: send(421 constant), flush, raise
-        def ev(n):
-            out = []
-            if n.kind == 'call' and e.call_name(n) == 'send' and \
-                    isinstance(n.ast.func, ast.Attribute):
-                code = common.reply_constant_code(e, n.ast.func.value,
-                                                  n.ctx)
-                if code == '421':
-                    out.append('send421')
-            if n.kind == 'call' and e.call_name(n) == 'flush_send':
-                out.append('flush')
-            if n.kind == 'call' and e.call_name(n) == 'send' and any(
-                    isinstance(k.value, ast.Constant) and k.value.value
-                    for k in n.ast.keywords if k.arg == 'flush'):
-                out.append('flush')
-            return out
-        # normal termination of the handler (falling out of it back into the
-        # loop, or returning) is what must not happen: treat `exit` and any
-        # node outside the handler as "no events".
-        inside = {n.id for n in g.nodes if any(
-            sc.kind == 'handler' and sc.ast is h.ast for sc in n.scopes)}
-        after = dataflow.must_events_after(
-            g, ev, on_exit=frozenset(), on_raise=frozenset(),
-            edge=lambda p, l, s, si: (
-                None if (isinstance(l, tuple) and p.kind != 'stmt') else
-                si if (s.id in inside or s is g.raise_exit or
-                       isinstance(l, tuple)) else frozenset()))
+    def ev(n):
+        out = []
+        if n.kind == 'call' and e.call_name(n) == 'send' and \
+                isinstance(n.ast.func, ast.Attribute):
+            code = common.reply_constant_code(e, n.ast.func.value, n.ctx)
+            if code == '421':
+                out.append('send421')
+                if any(isinstance(k.value, ast.Constant) and k.value.value
+                       for k in n.ast.keywords if k.arg == 'flush'):
+                    out.append('flush')
+        if n.kind == 'call' and e.call_name(n) == 'flush_send':
+            out.append('flush')
+        return out
+    # exception edges out of calls are disregarded (the reply could not be
+    # sent at all); explicit raise statements terminate the path.
+    after = dataflow.must_events_after(
+        g, ev, on_exit=frozenset(), on_raise=frozenset(),
+        edge=lambda p, l, s, si: (
+            None if (isinstance(l, tuple) and p.kind != 'stmt') else si))
+    for i, h in enumerate(handlers):
+        rep.evaluations += 1
         st = after.get(h.id)
         got = set() if st is None or isinstance(st, dataflow.Top) else st
+        if isinstance(st, dataflow.Top):
+            got = {'send421', 'flush'}    # no terminating path at all
         ok = 'send421' in got and 'flush' in got
-        # and the handler never completes normally
-        leaves = [n for n in g.nodes if n.id in inside for l, s in n.succ
-                  if s.id not in inside and not isinstance(l, tuple)
-                  and s is not g.raise_exit]
-        rep.check(ok and not leaves, 'T4', where, 'except Timeout arm',
-                  'the Timeout arm of Server.handle does not on every path '
-                  'send a 421 constant, flush it and raise (events on all '
-                  'paths: %s; normal exits: %d)' % (sorted(got), len(leaves)),
-                  reason='send 421 constant, flush, raise on every path',
-                  loc=h.loc())
+        # the session must not go on: no way back to the command loop
+        hf = e.facts(g, start=h)
+        cont = dataflow.find_path(
+            g, h, lambda n: n in need,
+            edge_ok=lambda p, l, s: not (isinstance(l, tuple) and
+                                         p.kind != 'stmt') and
+            not hf.infeasible(p, l))
+        text = 'except Timeout arm #%d' % (i + 1)
+        w = dataflow.render_path(cont) if cont else None
+        rep.check(ok and cont is None, 'T4', where, text,
+                  'after a timeout the session must end with a flushed 421 '
+                  'on every path (events guaranteed: %s; path back to the '
+                  'command loop: %s)' % (sorted(got), 'yes' if cont else 'no'),
+                  reason='flushed 421 constant on every path, never back to '
+                  'the command loop', loc=h.loc(), witness=w)
     if not handlers:
         rep.bad('T4', where, 'except Timeout arm',
                 'Server.handle has no `except Timeout` arm', loc=ctx.func.loc())
